@@ -577,6 +577,61 @@ def check_step_loop(rep: Report, view: StepperView, steps_name: str, t0_name: st
         rep.violation("C07.step-loop", f"{root_ref}::step-loop", f"{ref}: the step loop must run `{steps_name}` times without early exit, applying the step and the post-step hook exactly once per iteration at {t0_name} + {I}*dt: {detail}", line=L.lineno)
 
 
+def skeleton_witness(fi) -> str | None:
+    """interpret the interpreted fixed stepper (pdelint/npsem.py) on exact rational times with recording stand-ins for the
+    single step and the post-step hook; returns a description of the first (t_start, t_end, dt) for which the number of
+    steps, their times, the returned time or the accounting differ from the documented ones, else None"""
+    from fractions import Fraction
+
+    import numpy as _np
+    import sympy as _sp
+
+    from .. import npsem as ns
+
+    dt = _sp.Rational(1, 10)
+    ratios = [Fraction(3, 10), Fraction(1, 2), Fraction(7, 10), Fraction(1), Fraction(6, 5), Fraction(3, 2), Fraction(23, 10), Fraction(5, 2), Fraction(27, 10), Fraction(3), Fraction(37, 10), Fraction(8)]
+    for t0 in (_sp.Integer(0), _sp.Rational(1, 3)):
+        for r in ratios:
+            t1 = t0 + _sp.Rational(r.numerator, r.denominator) * dt
+            want_steps = max(1, round(r))
+            calls: list = []
+            info = {"steps": 0, "post_step_data": None}
+
+            def single_step(state, t, _calls=calls):
+                _calls.append(t)
+                return state
+
+            scope = ns.Scope(
+                {
+                    "np": ns.NP,
+                    "single_step": single_step,
+                    "post_step_hook": lambda state, t, data=None, **kw: (state, data),
+                    "dt": dt,
+                    "self": ns.Stub("solver", info=info, _logger=ns.Opaque("logger")),
+                    "solver": ns.Stub("solver", info=info),
+                }
+            )
+            sem = ns.NpSem(where=fi.ref)
+            state = ns.sym_array("u", (2,))
+            try:
+                ret = sem.run_function(fi.node, {}, (state, t0, t1), outer=scope)
+            except ns.Raised as e:
+                return f"t_start={t0}, t_end={t1}, dt={dt}: the stepper raises `{e.what}`"
+            except ns.Unsupported as e:
+                raise AnalysisError(f"{fi.ref}: control skeleton outside the interpreter's grammar: {e}") from e
+            where = f"t_start={t0}, t_end={t1}, dt={dt} ((t_end - t_start)/dt = {r})"
+            if len(calls) != want_steps:
+                return f"{where}: {len(calls)} steps are performed, documented max(1, round(.)) = {want_steps} (a scheduled time is then reached up to a whole step late/early instead of within dt/2)"
+            bad_t = [(i, t) for i, t in enumerate(calls) if _sp.simplify(t - (t0 + i * dt)) != 0]
+            if bad_t:
+                return f"{where}: step {bad_t[0][0]} is evaluated at t={bad_t[0][1]} instead of t_start + i*dt"
+            if ret is None or _sp.simplify(_sp.sympify(ret) - (t0 + want_steps * dt)) != 0:
+                return f"{where}: the stepper returns t={ret}, the time actually reached is t_start + steps*dt = {t0 + want_steps * dt}"
+            if info["steps"] != want_steps:
+                return f"{where}: info['steps'] grows by {info['steps']} although {want_steps} steps were performed"
+    return None
+
+
 def check_fixed_steppers(rep: Report, ix, tier: str) -> None:
     import sympy as sp
 
@@ -593,86 +648,106 @@ def check_fixed_steppers(rep: Report, ix, tier: str) -> None:
         fi = ix.func(rel, qn)
         ref = fi.ref
         rep.saw("functions", ref)
-        view = StepperView(fi)
-        g = view.g
-        if len(view.ps) != 3:
-            raise AnalysisError(f"{ref}: signature (state_data, t_start, t_end) expected")
-        _, T0, T1 = view.ps
-        s0, s1 = sp.Symbol(T0, real=True), sp.Symbol(T1, real=True)
+        n_find = len(rep.findings)
+        try:
+            view = StepperView(fi)
+            g = view.g
+            if len(view.ps) != 3:
+                raise AnalysisError(f"{ref}: signature (state_data, t_start, t_end) expected")
+            _, T0, T1 = view.ps
+            s0, s1 = sp.Symbol(T0, real=True), sp.Symbol(T1, real=True)
 
-        # ---- accounting --------------------------------------------------------------------
-        acc = [n for n in g.nodes if g.is_reachable(n) and n.kind == "stmt" and isinstance(n.ast, ast.AugAssign) and isinstance(n.ast.op, ast.Add) and _is_info_item(n.ast.target, "steps")]
-        cnt = g.path_counts(g.entry, lambda n: n in acc, stop_nodes=[g.exit])
-        names = {n.ast.value.id if isinstance(n.ast.value, ast.Name) else None for n in acc}
-        acc_ok = bool(acc) and cnt == {1} and len(names) == 1 and None not in names
-        if not rep.oblige(f"{label}/steps-accounted", acc_ok, {"sites": [ast.unparse(n.ast) for n in acc], "per call": sorted(cnt)}):
-            rep.violation("C07.steps-accounted", f"{ref}::info-steps", f"info['steps'] must be increased by the number of steps exactly once on every path (sites {[ast.unparse(n.ast) for n in acc]}, per call {sorted(cnt)})", line=fi.node.lineno)
-        if acc_ok:
-            (V,) = names
+            # ---- accounting --------------------------------------------------------------------
+            acc = [n for n in g.nodes if g.is_reachable(n) and n.kind == "stmt" and isinstance(n.ast, ast.AugAssign) and isinstance(n.ast.op, ast.Add) and _is_info_item(n.ast.target, "steps")]
+            cnt = g.path_counts(g.entry, lambda n: n in acc, stop_nodes=[g.exit])
+            names = {n.ast.value.id if isinstance(n.ast.value, ast.Name) else None for n in acc}
+            acc_ok = bool(acc) and cnt == {1} and len(names) == 1 and None not in names
+            if not rep.oblige(f"{label}/steps-accounted", acc_ok, {"sites": [ast.unparse(n.ast) for n in acc], "per call": sorted(cnt)}):
+                rep.violation("C07.steps-accounted", f"{ref}::info-steps", f"info['steps'] must be increased by the number of steps exactly once on every path (sites {[ast.unparse(n.ast) for n in acc]}, per call {sorted(cnt)})", line=fi.node.lineno)
+            if acc_ok:
+                (V,) = names
+            else:
+                cands = [v for v in view.locals if any(isinstance(x, ast.Call) and dotted(x.func) == "round" for d in g.all_defs(v) if def_value(d, v)[0] == "expr" for x in ast.walk(def_value(d, v)[1]))]
+                if len(cands) != 1:
+                    raise AnalysisError(f"{ref}: cannot identify the step-count variable")
+                (V,) = cands
+            sv = sp.Symbol(V, real=True)
+            view.stop = {V}
+
+            # ---- steps formula --------------------------------------------------------------------
+            want = sp.Function("max")(*sorted([sp.Integer(1), sp.Function("round")((s1 - s0) / view.DT)], key=str))
+            defs = [d for d in g.all_defs(V) if g.is_reachable(d)]
+            rep.floor(f"{ref}: definitions of the step count", len(defs), 1)
+            for k, d in enumerate(defs):
+                v = def_value(d, V)
+                got = None
+                if v[0] == "expr":
+                    try:
+                        got = view.sym(resolve_expr(g, d, v[1]))
+                    except ValueError:
+                        got = None
+                ok = got is not None and sp.simplify(got - want) == 0
+                rep.sample({"construct": ref, "backend": label, "steps": str(got)})
+                summaries.setdefault(label, {})["steps"] = str(got)
+                if not rep.oblige(f"{label}/steps-formula#{k}", ok, str(got)):
+                    rep.violation("C07.steps-formula", f"{ref}::steps", f"`{ast.unparse(d.ast)}` evaluates to {got}, expected max(1, round(({T1} - {T0})/dt))", line=d.lineno)
+
+            # ---- returned time ----------------------------------------------------------------------
+            rets = returns(g)
+            rep.floor(f"{ref}: returns", len(rets), 1)
+            for k, r in enumerate(rets):
+                rv = r.ast.value
+                if isinstance(rv, ast.Tuple):
+                    rv = rv.elts[-1]  # (state_data, t_final) convention of the functional back-ends
+                cf = sp.simplify(view.closed_form(r, rv, ix)) if rv is not None else None
+                ok = cf is not None and sp.simplify(cf - (s0 + sv * view.DT)) == 0
+                rep.sample({"construct": ref, "backend": label, "returned time": str(cf)})
+                summaries.setdefault(label, {})["return"] = str(cf)
+                if not rep.oblige(f"{label}/return-time#{k}", ok, str(cf)):
+                    rep.violation("C07.return-time", f"{ref}::return", f"the returned time has the closed form {cf}, expected {T0} + {V}*dt (the time actually reached after {V} steps)", line=r.lineno)
+
+            # ---- the loop -------------------------------------------------------------------------------
+            if has_loop:
+                loop_view, steps_name, t0_name = view, V, T0
+                direct = any(h.kind == "for" for h in g.nodes)
+                if not direct:
+                    callee = None
+                    for n in g.nodes:
+                        for c in n.calls():
+                            if isinstance(c.func, ast.Name) and c.func.id not in view.locals and any(is_name(a, V) for a in c.args):
+                                cal = [x for x in view.factory_values(c.func.id) if isinstance(x, ast.FunctionDef)]
+                                if len(cal) == 1:
+                                    callee = (c, next(f for f in fi.module.functions.values() if f.node is cal[0]))
+                    if callee is None:
+                        raise AnalysisError(f"{ref}: no step loop and no compiled loop receiving `{V}`")
+                    c, cfi = callee
+                    rep.saw("functions", cfi.ref)
+                    loop_view = StepperView(cfi)
+                    pos_steps = next(i for i, a in enumerate(c.args) if is_name(a, V))
+                    pos_t0 = next((i for i, a in enumerate(c.args) if is_name(a, T0)), None)
+                    if pos_t0 is None:
+                        raise AnalysisError(f"{ref}: the compiled loop does not receive `{T0}`")
+                    steps_name, t0_name = loop_view.ps[pos_steps], loop_view.ps[pos_t0]
+                    loop_view.stop = {steps_name}
+                check_step_loop(rep, loop_view, steps_name, t0_name, label, ref)
+        except AnalysisError as err:
+            if (rel, qn) != FIXED_STEPPERS[0][:2]:
+                raise
+            # an idiom of the interpreted stepper that the symbolic rules do not know is decided by a witness search on
+            # its control skeleton (recording stand-ins for single step and hook, exact rational times); without a
+            # witness the idiom stays undecided
+            w = skeleton_witness(fi)
+            if w is None:
+                raise
+            rep.note(f"symbolic stepper rules not applicable ({err}); decided by the control-skeleton witness")
+            rep.oblige(f"{label}/control-skeleton", False, w)
+            rep.violation("C07.step-loop", f"{ref}::skeleton", f"interpreting the stepper with recording stand-ins: {w}", line=fi.node.lineno)
         else:
-            cands = [v for v in view.locals if any(isinstance(x, ast.Call) and dotted(x.func) == "round" for d in g.all_defs(v) if def_value(d, v)[0] == "expr" for x in ast.walk(def_value(d, v)[1]))]
-            if len(cands) != 1:
-                raise AnalysisError(f"{ref}: cannot identify the step-count variable")
-            (V,) = cands
-        sv = sp.Symbol(V, real=True)
-        view.stop = {V}
-
-        # ---- steps formula --------------------------------------------------------------------
-        want = sp.Function("max")(*sorted([sp.Integer(1), sp.Function("round")((s1 - s0) / view.DT)], key=str))
-        defs = [d for d in g.all_defs(V) if g.is_reachable(d)]
-        rep.floor(f"{ref}: definitions of the step count", len(defs), 1)
-        for k, d in enumerate(defs):
-            v = def_value(d, V)
-            got = None
-            if v[0] == "expr":
-                try:
-                    got = view.sym(resolve_expr(g, d, v[1]))
-                except ValueError:
-                    got = None
-            ok = got is not None and sp.simplify(got - want) == 0
-            rep.sample({"construct": ref, "backend": label, "steps": str(got)})
-            summaries.setdefault(label, {})["steps"] = str(got)
-            if not rep.oblige(f"{label}/steps-formula#{k}", ok, str(got)):
-                rep.violation("C07.steps-formula", f"{ref}::steps", f"`{ast.unparse(d.ast)}` evaluates to {got}, expected max(1, round(({T1} - {T0})/dt))", line=d.lineno)
-
-        # ---- returned time ----------------------------------------------------------------------
-        rets = returns(g)
-        rep.floor(f"{ref}: returns", len(rets), 1)
-        for k, r in enumerate(rets):
-            rv = r.ast.value
-            if isinstance(rv, ast.Tuple):
-                rv = rv.elts[-1]  # (state_data, t_final) convention of the functional back-ends
-            cf = sp.simplify(view.closed_form(r, rv, ix)) if rv is not None else None
-            ok = cf is not None and sp.simplify(cf - (s0 + sv * view.DT)) == 0
-            rep.sample({"construct": ref, "backend": label, "returned time": str(cf)})
-            summaries.setdefault(label, {})["return"] = str(cf)
-            if not rep.oblige(f"{label}/return-time#{k}", ok, str(cf)):
-                rep.violation("C07.return-time", f"{ref}::return", f"the returned time has the closed form {cf}, expected {T0} + {V}*dt (the time actually reached after {V} steps)", line=r.lineno)
-
-        # ---- the loop -------------------------------------------------------------------------------
-        if has_loop:
-            loop_view, steps_name, t0_name = view, V, T0
-            direct = any(h.kind == "for" for h in g.nodes)
-            if not direct:
-                callee = None
-                for n in g.nodes:
-                    for c in n.calls():
-                        if isinstance(c.func, ast.Name) and c.func.id not in view.locals and any(is_name(a, V) for a in c.args):
-                            cal = [x for x in view.factory_values(c.func.id) if isinstance(x, ast.FunctionDef)]
-                            if len(cal) == 1:
-                                callee = (c, next(f for f in fi.module.functions.values() if f.node is cal[0]))
-                if callee is None:
-                    raise AnalysisError(f"{ref}: no step loop and no compiled loop receiving `{V}`")
-                c, cfi = callee
-                rep.saw("functions", cfi.ref)
-                loop_view = StepperView(cfi)
-                pos_steps = next(i for i, a in enumerate(c.args) if is_name(a, V))
-                pos_t0 = next((i for i, a in enumerate(c.args) if is_name(a, T0)), None)
-                if pos_t0 is None:
-                    raise AnalysisError(f"{ref}: the compiled loop does not receive `{T0}`")
-                steps_name, t0_name = loop_view.ps[pos_steps], loop_view.ps[pos_t0]
-                loop_view.stop = {steps_name}
-            check_step_loop(rep, loop_view, steps_name, t0_name, label, ref)
+            if (rel, qn) == FIXED_STEPPERS[0][:2] and len(rep.findings) == n_find:
+                w = skeleton_witness(fi)
+                rep.oblige(f"{label}/control-skeleton: max(1, round(.)) steps at t_start + i*dt, returns t_start + steps*dt, accounts steps", w is None, w)
+                if w is not None:
+                    rep.violation("C07.step-loop", f"{ref}::skeleton", f"interpreting the stepper with recording stand-ins: {w}", line=fi.node.lineno)
         n_done += 1
     rep.floor("fixed steppers analysed", n_done, 4)
     agree = len({(s.get("steps"), s.get("return")) for s in summaries.values()}) == 1
